@@ -17,6 +17,9 @@ RULE = (
 ASSUMPTIONS = [
     "timeouts are long enough never to fire and nobody cancels, so no future ends cancelled (cancelled futures are exempt by the statement)",
     "layer functions behave as a function of their argument only, so the reference is independent of the interleaving",
+    "a BaseException that is not an Exception is raised only by callables on a thread-pool base (whose worker stores it on the future) and only "
+    "in stacks without error functions: user code that raises one ON a library thread is outside what the library (or the stdlib's callback "
+    "invoker) promises to survive",
 ]
 
 
